@@ -1131,7 +1131,60 @@ pub fn temp_programs() -> Vec<(String, String)> {
     held_family(&mut out);
     bulk_family(&mut out);
     deferred_family(&mut out);
+    host_only_family(&mut out);
     out
+}
+
+// ------------------------------------------------------------------------------------------------
+// containers whose elements are ALL host values (process commands; no string, no nested array among them): built
+// inside a function / loop body / nested block, kept by something that outlives that frame (returned, pushed,
+// stored by index, passed on), the frame reused by churn, then read — every route by which an array is promoted
+// (seed C02-e1: a fast path in `Value::promote` for arrays "without strings or arrays" moved host handles
+// un-promoted).  how it is built (4) x how it is kept (5) x number of elements (1, 2, 5) x mixed-in control (a
+// number element / a string element / none).
+
+fn host_only_family(out: &mut Vec<(String, String)>) {
+    let builds: [(&str, &str); 4] = [
+        ("fn-return", "do mk(tag) start\nreturn {A}\nend"),
+        ("fn-local-return", "do mk(tag) start\nmake local get {A}\nreturn local\nend"),
+        ("fn-push-return", "do mk(tag) start\nmake local get []\n{PUSHES}\nreturn local\nend"),
+        ("fn-in-loop", "do mk(tag) start\nmake local get []\nmake k get 0\njasi (k small pass {N}) start\nlocal.push(command(\"prog-\" add tag add \"-\" add to_string(k)))\nk get k add 1\nend\nreturn local\nend"),
+    ];
+    let keeps: [(&str, &str); 5] = [
+        ("make", "make jobs get mk(\"a\")"),
+        ("push", "make all get []\nall.push(mk(\"a\"))\nall.push(mk(\"b\"))\nmake jobs get all"),
+        ("index", "make all get [0, 1]\nall[0] get mk(\"a\")\nall[1] get mk(\"b\")\nmake jobs get all"),
+        ("loop-make", "make jobs get []\nmake w get 0\njasi (w small pass 3) start\njobs get mk(to_string(w))\nw get w add 1\nend"),
+        ("param", "do keep(v) start\nreturn v\nend\nmake jobs get keep(mk(\"a\"))"),
+    ];
+    for (btag, build) in builds {
+        for (ktag, keep) in keeps {
+            for n in [1usize, 2, 5] {
+                for ctl in ["none", "number", "string"] {
+                    let mut elems: Vec<String> = (0..n).map(|i| format!("command(\"prog-\" add tag add \"-{i}\")")).collect();
+                    match ctl {
+                        "number" => elems.push("7".into()),
+                        "string" => elems.push("\"s-\" add tag".into()),
+                        _ => {}
+                    }
+                    let pushes: Vec<String> = elems.iter().map(|e| format!("local.push({e})")).collect();
+                    let b = build
+                        .replace("{A}", &format!("[{}]", elems.join(", ")))
+                        .replace("{PUSHES}", &pushes.join("\n"))
+                        .replace("{N}", &n.to_string());
+                    let mut lines = vec![b, keep.to_string()];
+                    // frame churn: calls and loop iterations that reuse whatever was given back
+                    lines.push("do churn(i) start\nmake t get \"chunk-\" add to_string(i) add \";xxxxxxxxxxxxxxxxxxxxxxxx\"\nreturn t.len()\nend".into());
+                    lines.push("make z get 0\nmake acc get 0\njasi (z small pass 8) start\nacc get acc add churn(z)\nz get z add 1\nend".into());
+                    lines.push("shout(jobs)".into());
+                    lines.push("shout(jobs.len())".into());
+                    lines.push("shout(acc)".into());
+                    lines.push("shout(\"done\")".into());
+                    out.push((format!("hostonly={btag} keep={ktag} n={n} ctl={ctl}"), lines.join("\n")));
+                }
+            }
+        }
+    }
 }
 
 // ------------------------------------------------------------------------------------------------
